@@ -27,3 +27,45 @@ package server
 //@ func (*fsmHandler).recvMessageloop
 //@   claims at-call
 //@   at-call table.UpdatePathAttrs4ByteAs( requires handling == bgp.ERROR_HANDLING_NONE || handling == bgp.ERROR_HANDLING_ATTRIBUTE_DISCARD ==> called(ValidateUpdateMsg)
+
+// =============================================================================================
+// C08 — session parameters are negotiated as the intersection of both OPEN messages
+// =============================================================================================
+//@ props C08
+//@ func (*fsmState).String
+//@   pure
+//@   spec-only
+//@ func getASN
+//@   pure
+//@   spec-only
+
+// Established: the parameters the session runs with. The assertions sit at the first call after the
+// parameters have been written (thread-local view of `conf`, the copy that the deferred Update publishes).
+// from C08: "hold time min(local, remote)", "keepalive a third of it unless the configured one applies",
+// "peer type taken from the real remote AS"
+//@ func (*fsm).stateChange
+//@   claims at-call
+//@   at-call fsm.gConf.IsConfederationMember( requires conf.Timers.State.NegotiatedHoldTime == (float64(body.HoldTime) > conf.Timers.Config.HoldTime ? conf.Timers.Config.HoldTime : float64(body.HoldTime))
+//@   at-call fsm.gConf.IsConfederationMember( requires conf.Timers.State.KeepaliveInterval == (conf.Timers.State.NegotiatedHoldTime < conf.Timers.Config.HoldTime ? conf.Timers.State.NegotiatedHoldTime / 3 : conf.Timers.Config.KeepaliveInterval)
+//@   at-call fsm.gConf.IsConfederationMember( requires fsm.isEBGP == (remoteAS != localAS)
+
+// from C08: "the OPEN sent reflects the configuration (AS_TRANS for 4-octet local AS)"
+//@ func buildopen
+//@   requires gConf != nil && pConf != nil
+//@   claims at-call
+//@   at-call bgp.NewBGPOpenMessage( requires as == (pConf.Config.LocalAs > 65535 ? 23456 : pConf.Config.LocalAs) && as <= 65535
+
+// =============================================================================================
+// C07 — OPEN handling: next state and NOTIFICATION
+// =============================================================================================
+//@ props C07
+// from C07: "it becomes Established only after a valid OPEN ...; every invalid OPEN, unexpected or malformed
+// message ... yields the NOTIFICATION ... and next state the RFCs prescribe": OpenConfirm (and no NOTIFICATION)
+// only for an OPEN that ValidateOpenMsg accepts, otherwise Idle together with a NOTIFICATION
+//@ func (*fsm).handleOpen
+//@   requires fsm != nil && fmsg != nil
+//@   claims post panic
+//@   requires typeOf(fmsg.MsgData) == (*bgp.BGPMessage) || typeOf(fmsg.MsgData) == (*bgp.MessageError)
+//@   ensures result0 == bgp.BGP_FSM_OPENCONFIRM || result0 == bgp.BGP_FSM_IDLE
+//@   ensures result0 == bgp.BGP_FSM_OPENCONFIRM ==> result2 == nil && typeOf(old(fmsg.MsgData)) == (*bgp.BGPMessage)
+//@   ensures result0 == bgp.BGP_FSM_IDLE ==> result2 != nil
